@@ -154,6 +154,16 @@ GRAMMARS = [
       'spec': 'sor< try_catch_type_return_false< verif_exc, named< 0, %s, must< named< 1, %s > > > >, %s >' % (S0, S2, N2),
       'reach': [('e.r == 1 && %s && ts_n == 1 && ts_id[0] == 102' % OK0, "the selected rule's failure is turned into a global failure by the control, caught in the grammar, the alternative builds the tree"),
                 ('e.r == 1 && ts_n == 2 && ts_id[0] == 100', 'guarded branch kept')]}),
+    # a user state handed to parse_tree::parse( in, st ): transformers (fold_one) and the builder's unwind() are selected by SFINAE on the state list
+    ('userstate_fold', N0('named< 1, named< 2, %s >, %s >, %s' % (S0, S1, S2)),
+     {'fold': {100: 'store', 101: 'fold', 102: 'store'}},
+     {'cap': 4, 'maxch': 2, 'maxd': 3, 'maxn': 4, 'control': 'userstate',
+      'reach': [('e.r == 1 && ts_n >= 2', 'tree with a folded node')]}),
+    ('userstate_trycatch', 'sor< try_catch_type_return_false< verif_exc, seq< %s, must< %s > > >, %s >' % (N1, S1, N2),
+     {'all': ALL},
+     {'cap': 5, 'maxch': 2, 'maxd': 1, 'maxn': 3, 'control': 'userstate', 'stack': ['all'],
+      'reach': [('e.r == 1 && %s && T_res[1][%s] == 0 && ts_id[0] == 102' % (OK0, Q0), 'exception passed an unselected frame that held a finished node, the alternative builds the tree'),
+                ('e.r == 1 && ts_id[0] == 101', 'guarded branch kept')]}),
     ('deep', 'sor< seq< ' + 'seq< ' * 9 + N1 + ' >' * 9 + ', %s >, %s >' % (S1, N2),
      {'all': ALL},
      {'cap': 13, 'maxch': 2, 'maxd': 1, 'maxn': 3, 'mem_gb': 8, 'N': 2, 'maxres': 1, 'thorough': {'N': 2},
@@ -210,7 +220,7 @@ def plan(ctx):
                                    bounds={'N': n, 'K': K, 'grammar': gtext, 'selector': sel if sel == 'all' else {str(k): v for k, v in sel.items()},
                                            'vector_capacity': cap, 'max_children': maxch, 'max_depth': maxd, 'max_nodes': maxn, 'checked': mode,
                                            'action': {'bool': 'vf::act_bool (veto / throw)', 'void0': 'vf::act0_void (throw)'}.get(action, 'nothing'),
-                                           'control': 'must_if< errors, vcontrol >::control (rule 101 raises from failure())' if o.get('control') else 'vcontrol',
+                                           'control': {'mustif': 'must_if< errors, vcontrol >::control (rule 101 raises from failure())', 'userstate': 'vcontrol, one user state passed to parse_tree::parse'}.get(o.get('control'), 'vcontrol'),
                                            'mode': 'apply_mode::action, rewind_mode::optional (fixed by parse_tree::parse)'},
                                    note='tree returned by the real parse_tree::parse == surviving derivation of the selected rules; result == plain parse'
                                         if mode == 'tree' else 'builder stack after the run: exactly the root, nothing below it unless the parse succeeded'))
